@@ -88,6 +88,13 @@ def arg_pool():
         ("downsample_grid", (X2, Y2, 5), {}, "2-D"),
         ("downsample_grid", (X2.T, Y2.T, 5), {}, "2-D transposed view"),
     ]
+    # the same bytes as a 0-d array and as a one-element array
+    pool += [
+        ("kde_histogram", (x6, y6), {"bins": np.array(7)}, "bins 0-d"),
+        ("kde_histogram", (x6, y6), {"bins": np.array([7])}, "bins (1,)"),
+        ("downsample_grid", (x6, y6, np.array(3)), {}, "samples 0-d"),
+        ("downsample_grid", (x6, y6, np.array([3])), {}, "samples (1,)"),
+    ]
     pool += [
         ("downsample_grid", (le_x, le_y, 3), {}, "u2 little endian"),
         ("downsample_grid", (be_x, be_y, 3), {}, "u2 big endian, same bytes"),
